@@ -42,6 +42,10 @@ struct BackCfg {
     /// byte ledger with a SETTINGS shrink below the data in flight: once a stream has used its whole 65535 window,
     /// announce INITIAL_WINDOW_SIZE = 1000 (the window becomes -64535), then grant 64545: exactly 10 more bytes are allowed
     shrink: bool,
+    /// connection receive-window ledger: the backend keeps the default 65535 connection window toward itself (no enlarging
+    /// WINDOW_UPDATE), sends three more (empty) SETTINGS after its first answer, and accounts every connection-level
+    /// WINDOW_UPDATE sozu sends against the bytes it sent to sozu plus the one-time enlargement (1 MiB - 65535)
+    resettings: bool,
 }
 
 fn conn_thread(mut s: std::net::TcpStream, cfg: BackCfg, conn_no: usize, tx: mpsc::Sender<String>) {
@@ -66,7 +70,10 @@ fn conn_thread(mut s: std::net::TcpStream, cfg: BackCfg, conn_no: usize, tx: mps
         first.push((3u16, m));
     }
     let _ = s.write_all(&settings(&first));
-    let _ = s.write_all(&frame(T_WU, 0, 0, &(1u32 << 24).to_be_bytes()));
+    if !cfg.resettings {
+        let _ = s.write_all(&frame(T_WU, 0, 0, &(1u32 << 24).to_be_bytes()));
+    }
+    let (mut conn_credit_from_sozu, mut sent_to_sozu, mut over_flagged) = (0i64, 0i64, false);
     // limits we sent, in order; `acks` counts the SETTINGS ACKs received: the limit in force for sozu is the
     // last one it acknowledged (before any ACK: unlimited, RFC 9113 6.5.2)
     let mut sent_limits: Vec<Option<u32>> = vec![cfg.mcs];
@@ -93,6 +100,19 @@ fn conn_thread(mut s: std::net::TcpStream, cfg: BackCfg, conn_no: usize, tx: mps
                 }
                 T_PING if f.flags & 1 == 0 => {
                     let _ = s.write_all(&frame(T_PING, 1, 0, &f.payload));
+                }
+                T_WU if f.sid == 0 && f.payload.len() == 4 && cfg.resettings => {
+                    let inc = u32::from_be_bytes([f.payload[0], f.payload[1], f.payload[2], f.payload[3]]) as i64;
+                    sent_to_sozu = answered as i64 * 6 + held.len() as i64 * 29;
+                    conn_credit_from_sozu += inc;
+                    let _ = tx.send(format!("obs conn{conn_no} connection-credit +{inc} total={conn_credit_from_sozu} sent={sent_to_sozu}"));
+                    let allowance = (1i64 << 20) - 65535;
+                    if conn_credit_from_sozu > sent_to_sozu + allowance && !over_flagged {
+                        over_flagged = true;
+                        let _ = tx.send(format!(
+                            "viol receiver-over-credit backend connection {conn_no}: sozu credited {conn_credit_from_sozu} bytes on the connection window, the backend sent {sent_to_sozu} flow-controlled bytes and the configured window allows a one-time enlargement of {allowance}"
+                        ));
+                    }
                 }
                 T_HEADERS => {
                     if !open.contains(&f.sid) {
@@ -215,6 +235,13 @@ fn answer(
     let _ = s.write_all(&b);
     open.remove(&sid);
     *answered += 1;
+    if cfg.resettings && *answered == 1 {
+        // three more SETTINGS frames (nothing changes): legal at any time, each must be acknowledged and nothing else
+        for _ in 0..3 {
+            let _ = s.write_all(&settings(&[]));
+            sent_limits.push(None);
+        }
+    }
     if cfg.mcs0_after_first && *answered == 1 {
         let _ = s.write_all(&settings(&[(3, 0)]));
         sent_limits.push(Some(0));
@@ -258,11 +285,12 @@ fn main() {
     let back = back_listener.local_addr().unwrap();
     let (tx, rx) = mpsc::channel::<String>();
     let cfg = match mode.as_str() {
-        "cancel" => BackCfg { mcs: Some(1), hold_first: true, mcs0_after_first: false, delay_ms: 0, shrink: false },
-        "mcs0" => BackCfg { mcs: Some(100), hold_first: false, mcs0_after_first: true, delay_ms: 0, shrink: false },
-        "shrink" => BackCfg { mcs: None, hold_first: false, mcs0_after_first: false, delay_ms: 0, shrink: true },
-        "burst" => BackCfg { mcs: Some(1), hold_first: false, mcs0_after_first: false, delay_ms: 300, shrink: false },
-        _ => BackCfg { mcs: None, hold_first: false, mcs0_after_first: false, delay_ms: 0, shrink: false },
+        "cancel" => BackCfg { mcs: Some(1), hold_first: true, mcs0_after_first: false, delay_ms: 0, shrink: false, resettings: false },
+        "mcs0" => BackCfg { mcs: Some(100), hold_first: false, mcs0_after_first: true, delay_ms: 0, shrink: false, resettings: false },
+        "shrink" => BackCfg { mcs: None, hold_first: false, mcs0_after_first: false, delay_ms: 0, shrink: true, resettings: false },
+        "burst" => BackCfg { mcs: Some(1), hold_first: false, mcs0_after_first: false, delay_ms: 300, shrink: false, resettings: false },
+        "resettings" => BackCfg { mcs: None, hold_first: false, mcs0_after_first: false, delay_ms: 0, shrink: false, resettings: true },
+        _ => BackCfg { mcs: None, hold_first: false, mcs0_after_first: false, delay_ms: 0, shrink: false, resettings: false },
     };
     let txb = tx.clone();
     std::thread::spawn(move || backend(back_listener, cfg, txb));
@@ -370,6 +398,18 @@ fn main() {
             println!("obs cancel first_answer={a1:?} second_answer={a3:?}");
             if a3 != Some(0x88) {
                 println!("viol request-lost the request sent after a cancelled one was not answered 200 (first HPACK byte {a3:?})");
+            }
+        }
+        "resettings" => {
+            p.send(&frame(T_HEADERS, 5, 1, &request_block(false, "/one")));
+            let a1 = wait_answer(&mut p, 1, 4);
+            std::thread::sleep(Duration::from_millis(500)); // the backend's three extra SETTINGS reach sozu
+            p.send(&frame(T_HEADERS, 5, 3, &request_block(false, "/two")));
+            let a3 = wait_answer(&mut p, 3, 6);
+            std::thread::sleep(Duration::from_millis(300));
+            println!("obs resettings first_answer={a1:?} second_answer={a3:?}");
+            if a1 != Some(0x88) || a3 != Some(0x88) {
+                println!("viol request-lost a request was not answered 200 around the backend's extra SETTINGS ({a1:?}, {a3:?})");
             }
         }
         "mcs0" => {
